@@ -686,6 +686,21 @@ def scen_C10(ctx):
         pair(ctx, 'intkeys', i, lines, stats=g.stats)
     parallel(one, range(ctx.scale(40, 300)))
 
+    # integer keys at LARGE offsets: a key file past 16 KiB (chain links of 3 bytes) and a value beyond 2 MiB (4-byte value
+    # offset), so that an 8-byte integer key record outgrows its 16-byte slot and moves next to other integer keys;
+    # every integer put must still be found, by value and through iteration
+    def big(i):
+        kt = ['u64', 'i64', 'vu64'][i % 3]
+        n = 8
+        xs = list(range(1, 1101))
+        ext = [2 ** 64 - 2, 2 ** 64 - 1] if kt != 'i64' else [2 ** 63 - 2, 2 ** 63 - 1]
+        lines = ['db d0 db', 'map m0 d0 %s m B%d' % (kt, n)] + ['put@ m0 %d %02x' % (x, x % 251) for x in xs]
+        lines += ['put@ m0 %d 01' % ext[0], 'put@ m0 %d 02' % ext[1], 'put@ m0 7 z2097200x3', 'put@ m0 %d z100x5' % ext[0]]
+        lines += ['get@ m0 %d' % x for x in ext + [1, 2, 3, 1099, 1100]] + ['has@ m0 %d' % x for x in (ext[1], 1, 1100)]
+        lines += ['len m0', 'iter m0 keys', 'closeall']
+        pair(ctx, 'intkeys_large_offsets', i, lines, op_timeout=120)
+    parallel(big, range(ctx.scale(1, 3)), workers=3)
+
 
 SCENARIOS['C10'] = scen_C10
 
